@@ -491,3 +491,51 @@ func (c *Ctx) checkFastForward() {
 	}
 	r.Floor("R4.11", n, 1)
 }
+
+// checkNoFabricatedSize implements R4.12 (R6.9 under C06): a child's size is read, never made up. Every return of the
+// size query that may carry a nil error hands out a size that is the result of a call (Tsize / BlockSizes entry read with
+// AsInt, the end position a Seek returned) — not a constant. A constant 0 for "unknown" makes the stream builder skip the
+// child: its bytes vanish from the file and its blocks are never requested.
+func (c *Ctx) checkNoFabricatedSize(rule string) {
+	r := c.R
+	r.Rule(rule, "no fabricated size: every possibly-successful return of the size query returns a size obtained from a call (AsInt of Tsize / of the BlockSizes entry, or the end position returned by Seek), never a constant")
+	n := 0
+	for _, q := range c.sizeQueries() {
+		errIdx := core.ErrResultIndex(q.Signature)
+		if errIdx < 0 {
+			continue
+		}
+		n++
+		key := core.FuncName(q) + "/size-is-read"
+		var bad []string
+		for _, ret := range core.Returns(q) {
+			rr := core.ResolvedResults(ret)
+			// a forwarding helper (`fail := func(err error) (int64, io.ReadSeeker, error) { return 0, nil, err }`) returns
+			// whatever error it is handed: its callers are the ones judged
+			if _, isParam := rr[errIdx].(*ssa.Parameter); isParam {
+				continue
+			}
+			if core.ErrKnownNonNil(rr[errIdx], nil) || core.GuardedBy(ret.Block(), func(cond ssa.Value) (bool, bool) {
+				x, trueMeansNil, ok := core.NilCmp(cond)
+				if !ok || x != rr[errIdx] {
+					return false, false
+				}
+				return !trueMeansNil, true
+			}) {
+				continue
+			}
+			for i, rv := range rr {
+				if i == errIdx || !isIntegerType(rv.Type()) {
+					continue
+				}
+				if _, isK := core.ConstInt(core.Unconv(rv)); isK {
+					// a constant together with an error variable that is the direct result of the call just made is the
+					// `return 0, nil, err` idiom only when that error is tested non-nil — handled above; here it may be nil
+					bad = append(bad, fmt.Sprintf("return at %s hands out the constant size %s with a possibly nil error", c.P.Pos(ret.Pos()), rv.Name()))
+				}
+			}
+		}
+		r.Check(len(bad) == 0, rule, key, c.P.Pos(q.Pos()), "every size handed out was read from the link, the metadata or the child", uniqJoin(bad))
+	}
+	r.Floor(rule, n, 1)
+}
